@@ -34,11 +34,28 @@ func opEquals(cond ssa.Value, toks ...token.Token) (bool, bool) {
 	return false, false
 }
 
+// rule names of the induction-variable gate: C12 runs it as C12.IV, C03 as C03.GATE.iv (the same conditions are what
+// keeps the {start,+,step} rewriting from merging two different loops)
+var c12IVRule, c12NegRule = "C12.IV", "C12.NEG"
+
+// c12IVGate runs the classifier rules (and the closed-form substitution rule) under other rule names.
+func c12IVGate(r *core.Run, ivRule, negRule string) {
+	saveIV, saveNeg := c12IVRule, c12NegRule
+	c12IVRule, c12NegRule = ivRule, negRule
+	defer func() { c12IVRule, c12NegRule = saveIV, saveNeg }()
+	c12Classifier(r, false)
+}
+
 func c12(r *core.Run) {
-	p := r.P
-	r.Explain = "C12 decided structurally: (IV) an induction variable is recorded only after: integer result type; the recognised update is the value on every in-loop phi edge (checked for every predecessor, bail-out on the first mismatch); all out-of-loop edges agree on one start value; the step is loop-invariant; a start value exists; the operator is ADD/SUB/MUL with 'phi on the right of SUB' rejected; only ADD/SUB yield a basic IV and only basic IVs are rewritten to {start,+,step} in the canonical IR; SUB negates the step; (TRIP) a computed trip count (a max(0,…) expression or the constant 0) is stored only after: exactly one exiting block; that block is the loop header, its true successor stays in the loop and its false successor leaves it; the compared IV is basic; the limit is loop-invariant. Not decided: the ceiling-division arithmetic, integer wrap-around, agreement with concrete executions. (IV, sharpened) the back-edge verification is reached for every in-loop predecessor; (CONST) an SSA constant becomes a symbolic constant only through a literal or the exact decimal text (no fixed-width accessor)."
+
+	r.Explain = "C12 decided structurally: (IV) an induction variable is recorded only after: integer result type; the recognised update is the value on every in-loop phi edge (checked for every predecessor, bail-out on the first mismatch); all out-of-loop edges agree on one start value; the step is loop-invariant; a start value exists; the operator is ADD/SUB/MUL with 'phi on the right of SUB' rejected; only ADD/SUB yield a basic IV and only basic IVs are rewritten to {start,+,step} in the canonical IR; SUB negates the step; (TRIP) a computed trip count (a max(0,…) expression or the constant 0) is stored only after: exactly one exiting block; that block is the loop header and exactly one of its successors stays in the loop, the comparison being used as written when the true edge stays and complemented when it leaves; the compared IV is basic; the limit is loop-invariant. Not decided: the ceiling-division arithmetic, integer wrap-around, agreement with concrete executions. (IV, sharpened) the back-edge verification is reached for every in-loop predecessor; (CONST) an SSA constant becomes a symbolic constant only through a literal or the exact decimal text (no fixed-width accessor)."
 	r.Undecided = []string{"arithmetic of the trip-count formula ((limit-start+step-1)/step etc.)", "integer wrap-around of narrow induction variables", "agreement on concrete argument vectors (runtime)"}
 
+	c12Classifier(r, true)
+}
+
+func c12Classifier(r *core.Run, withTrip bool) {
+	p := r.P
 	var classifier, tripper *ssa.Function
 	for _, fn := range p.FuncsIn("pkg/analysis/loop") {
 		core.InstrsOf(fn, func(in ssa.Instruction) {
@@ -57,16 +74,18 @@ func c12(r *core.Run) {
 		})
 	}
 	if classifier == nil {
-		r.Floor("C12.IV", "induction-variable classifier (writes Loop.Inductions)", 0, 1)
+		r.Floor(c12IVRule, "induction-variable classifier (writes Loop.Inductions)", 0, 1)
 	} else {
 		c12IV(r, classifier)
 	}
-	if tripper == nil {
-		r.Floor("C12.TRIP", "trip-count derivation (writes Loop.TripCount)", 0, 1)
-	} else {
-		c12Trip(r, tripper)
+	if withTrip {
+		if tripper == nil {
+			r.Floor("C12.TRIP", "trip-count derivation (writes Loop.TripCount)", 0, 1)
+		} else {
+			c12Trip(r, tripper)
+		}
+		c12Const(r)
 	}
-	c12Const(r)
 	// only basic IVs become {start,+,step} in the IR
 	n := 0
 	for _, fn := range p.FuncsIn("pkg/analysis/ir") {
@@ -105,10 +124,10 @@ func c12(r *core.Run) {
 				return true, op == token.EQL
 			}
 			ok1, n1, path := core.MustPass(fn, mu.Block(), atom)
-			r.Check(ok1 && n1 > 0, "C12.IV", core.FuncName(fn)+"#closed-form-only-for-basic-IV", mu.Pos(), "a phi is replaced by {start,+,step} only if the IV is basic (additive)", "a non-additive (e.g. geometric) induction variable is rendered as start + k*step ("+core.FmtPath(path)+")")
+			r.Check(ok1 && n1 > 0, c12IVRule, core.FuncName(fn)+"#closed-form-only-for-basic-IV", mu.Pos(), "a phi is replaced by {start,+,step} only if the IV is basic (additive)", "a non-additive (e.g. geometric) induction variable is rendered as start + k*step ("+core.FmtPath(path)+")")
 		})
 	}
-	r.Floor("C12.IV", "closed-form substitutions of induction phis in the canonicaliser", n, 1)
+	r.Floor(c12IVRule, "closed-form substitutions of induction phis in the canonicaliser", n, 1)
 }
 
 func c12IV(r *core.Run, fn *ssa.Function) {
@@ -133,13 +152,13 @@ func c12IV(r *core.Run, fn *ssa.Function) {
 		}
 	}
 	if sink == nil {
-		r.Floor("C12.IV", "recording of an induction variable in "+fnm, 0, 1)
+		r.Floor(c12IVRule, "recording of an induction variable in "+fnm, 0, 1)
 		return
 	}
 	sb := sink.Block()
 	chk := func(name string, atom core.Atom, okMsg, failMsg string) {
 		ok1, n1, path := core.MustPass(fn, sb, atom)
-		r.Check(ok1 && n1 > 0, "C12.IV", fnm+"#"+name, sink.Pos(), okMsg, failMsg+" ("+core.FmtPath(path)+")")
+		r.Check(ok1 && n1 > 0, c12IVRule, fnm+"#"+name, sink.Pos(), okMsg, failMsg+" ("+core.FmtPath(path)+")")
 	}
 	// (a) integer type
 	chk("integer-only", func(cond ssa.Value) (bool, bool) {
@@ -194,9 +213,9 @@ func c12IV(r *core.Run, fn *ssa.Function) {
 			m, onTrue := opEquals(cond, token.ADD, token.SUB)
 			return m && onTrue, true
 		})
-		r.Check(ok1 && n1 > 0, "C12.IV", fnm+"#basic-only-for-add-sub", st.Pos(), "IVTypeBasic is assigned only for ADD/SUB", "a multiplicative (or other) update is classified as a basic additive IV ("+core.FmtPath(path)+")")
+		r.Check(ok1 && n1 > 0, c12IVRule, fnm+"#basic-only-for-add-sub", st.Pos(), "IVTypeBasic is assigned only for ADD/SUB", "a multiplicative (or other) update is classified as a basic additive IV ("+core.FmtPath(path)+")")
 	})
-	r.Floor("C12.IV", "assignments of IVTypeBasic", nBasic, 2)
+	r.Floor(c12IVRule, "assignments of IVTypeBasic", nBasic, 2)
 
 	// (b)/(c) per-predecessor verification loops
 	nBack, nStart := 0, 0
@@ -248,7 +267,7 @@ func c12IV(r *core.Run, fn *ssa.Function) {
 		okFA, why := core.ForAllGuard(ifi, 0, sb)
 		if strings.HasSuffix(other.Type().String(), "ssa.BinOp") && inLoop(true) {
 			nBack++
-			r.Check(okFA, "C12.IV", fnm+"#back-edge-verification", ifi.Pos(), "every in-loop phi edge must be the recognised update, first mismatch bails out", "the in-loop phi edges are not verified against the recognised update: "+why)
+			r.Check(okFA, c12IVRule, fnm+"#back-edge-verification", ifi.Pos(), "every in-loop phi edge must be the recognised update, first mismatch bails out", "the in-loop phi edges are not verified against the recognised update: "+why)
 			// ... and the test is reached for every in-loop predecessor, not only for some of them
 			covered, path := true, []int(nil)
 			for _, lb := range fn.Blocks {
@@ -287,14 +306,14 @@ func c12IV(r *core.Run, fn *ssa.Function) {
 					covered, path = false, pth
 				}
 			}
-			r.Check(covered, "C12.IV", fnm+"#back-edge-verification-every-in-loop-edge", ifi.Pos(), "the verification is reached for every in-loop predecessor of the header", "some in-loop phi edges skip the verification ("+core.FmtPath(path)+"): with two latches (a continue in a post-less loop) the other latch's different update goes unchecked and the variable is still described as start + k*step")
+			r.Check(covered, c12IVRule, fnm+"#back-edge-verification-every-in-loop-edge", ifi.Pos(), "the verification is reached for every in-loop predecessor of the header", "some in-loop phi edges skip the verification ("+core.FmtPath(path)+"): with two latches (a continue in a post-less loop) the other latch's different update goes unchecked and the variable is still described as start + k*step")
 		} else if _, isPhi := other.(*ssa.Phi); isPhi && inLoop(false) {
 			nStart++
-			r.Check(okFA, "C12.IV", fnm+"#single-start-value", ifi.Pos(), "all out-of-loop edges must agree on one start value", "out-of-loop phi edges with different start values are accepted: "+why)
+			r.Check(okFA, c12IVRule, fnm+"#single-start-value", ifi.Pos(), "all out-of-loop edges must agree on one start value", "out-of-loop phi edges with different start values are accepted: "+why)
 		}
 	}
-	r.Floor("C12.IV", "in-loop edge verification", nBack, 1)
-	r.Floor("C12.IV", "start-value agreement test", nStart, 1)
+	r.Floor(c12IVRule, "in-loop edge verification", nBack, 1)
+	r.Floor(c12IVRule, "start-value agreement test", nStart, 1)
 
 	// (f) phi on the right of SUB is rejected: from the edge 'Y == phi' the sink needs Op != SUB
 	nSub := 0
@@ -326,7 +345,7 @@ func c12IV(r *core.Run, fn *ssa.Function) {
 			nSub++
 		}
 	}
-	r.Check(nSub > 0, "C12.IV", fnm+"#sub-phi-on-left-only", sink.Pos(), "c - i is rejected (subtraction with the phi as right operand)", "subtraction with the phi on the right (i = c - i) is accepted as an induction variable")
+	r.Check(nSub > 0, c12IVRule, fnm+"#sub-phi-on-left-only", sink.Pos(), "c - i is rejected (subtraction with the phi as right operand)", "subtraction with the phi on the right (i = c - i) is accepted as an induction variable")
 
 	// NEG: the SUB case negates the step
 	neg := false
@@ -341,7 +360,7 @@ func c12IV(r *core.Run, fn *ssa.Function) {
 			}
 		}
 	})
-	r.Check(neg, "C12.NEG", fnm+"#sub-negates-step", sink.Pos(), "for i -= c the recorded step is the negated constant", "the SUB case does not negate the step: i -= c is described as start + k*c")
+	r.Check(neg, c12NegRule, fnm+"#sub-negates-step", sink.Pos(), "for i -= c the recorded step is the negated constant", "the SUB case does not negate the step: i -= c is described as start + k*c")
 }
 
 func c12Trip(r *core.Run, fn *ssa.Function) {
